@@ -1,6 +1,7 @@
 package rules
 
 import (
+	"go/types"
 	"go/token"
 
 	"golang.org/x/tools/go/ssa"
@@ -265,4 +266,81 @@ func c07(x *Ctx) {
 		}
 	}
 	c.Min(rAll, 2)
+
+	// ---- the impact estimate the ordering uses -----------------------------------------------------------------
+	// (the property orders ejection by "estimated impact"; decided here is only that the estimate is what the code
+	// documents: size × an age factor with sub-timeout resolution, summed over all spans of the trace)
+	const rImp = "C07.impact-estimate"
+	if si := x.Fn(rImp, "types", "Span", "CacheImpact"); si != nil && len(si.Params) >= 2 {
+		timeout := si.Params[1]
+		for _, rv := range returnedValues(si, 0) {
+			c.Examined++
+			dep := func(pred func(ssa.Value) bool) bool {
+				_, ok := eng.Derives(rv, pred, eng.FlowOpts{ThroughCalls: true})
+				return ok
+			}
+			size := dep(func(v ssa.Value) bool {
+				return isCallValue(v, "(*types.Span).GetDataSize") || loadsField(v, func(fr eng.FieldRef) bool { return fr.Name == "DataSize" })
+			})
+			age := dep(func(v ssa.Value) bool { return loadsField(v, func(fr eng.FieldRef) bool { return fr.Name == "ArrivalTime" }) })
+			tmo := dep(func(v ssa.Value) bool { return v == ssa.Value(timeout) })
+			c.Decide(size && age && tmo, rImp, "Span.CacheImpact/inputs", x.PosOf(si.Pos()), "depends on the span's size, its arrival time and the trace timeout",
+				"the span's cache impact no longer depends on all of: its data size, its arrival time and the trace timeout")
+		}
+		// the age is scaled up before it is divided by the timeout (integer durations: age/timeout alone is 0 until a
+		// whole timeout has passed, which removes the age weighting for every trace that is still waiting)
+		eng.Instrs(si, func(in ssa.Instruction) {
+			q, ok := in.(*ssa.BinOp)
+			if !ok || q.Op != token.QUO {
+				return
+			}
+			if _, d := eng.Derives(q.Y, func(v ssa.Value) bool { return v == ssa.Value(timeout) }, eng.FlowOpts{}); !d {
+				return
+			}
+			if b, isB := q.X.Type().Underlying().(*types.Basic); !isB || b.Info()&types.IsInteger == 0 {
+				return
+			}
+			c.Examined++
+			scaled := false
+			if m, ok := eng.StripConv(q.X).(*ssa.BinOp); ok && m.Op == token.MUL {
+				for _, o := range []ssa.Value{m.X, m.Y} {
+					if k, ok := eng.ConstInt(o); ok && k > 1 {
+						scaled = true
+					}
+					if u, ok := eng.StripConv(o).(*ssa.UnOp); ok {
+						if _, isG := u.X.(*ssa.Global); isG {
+							scaled = true
+						}
+					}
+				}
+			}
+			c.Decide(scaled, rImp, "Span.CacheImpact/age-resolution", x.Pos(in), "the age is multiplied by the impact factor before the integer division by the timeout",
+				"the span's age is divided by the trace timeout as integers before it is scaled: the quotient is 0 for every span younger than one full timeout, so the age weighting of the impact estimate disappears exactly for the traces that are still waiting")
+		})
+	}
+	if ti := x.Fn(rImp, "types", "Trace", "CacheImpact"); ti != nil {
+		c.Examined++
+		sums := false
+		eng.Instrs(ti, func(in ssa.Instruction) {
+			cl, ok := in.(*ssa.Call)
+			if !ok || eng.CalleeName(cl) != "(*types.Span).CacheImpact" {
+				return
+			}
+			// called on the element of a range over all spans of the trace, and added up
+			elemOK := rangeElemOf(cl.Call.Args[0], func(v ssa.Value) bool {
+				return isCallValue(v, "(*types.Trace).GetSpans") || loadsField(v, func(fr eng.FieldRef) bool { return fr.Name == "spans" })
+			})
+			added := false
+			for _, ref := range *cl.Referrers() {
+				if bo, ok := ref.(*ssa.BinOp); ok && bo.Op == token.ADD {
+					added = true
+				}
+			}
+			if elemOK && added && loopHeader(in) != nil {
+				sums = true
+			}
+		})
+		c.Decide(sums, rImp, "Trace.CacheImpact/sum", x.PosOf(ti.Pos()), "sum of the spans' impacts over all spans of the trace", "the trace's impact is not the sum of Span.CacheImpact over all of its spans")
+	}
+	c.Min(rImp, 3)
 }
